@@ -42,6 +42,15 @@ interprocedurally, pre-/post-state of a written attribute kept apart):
              queries with slice.indices(count_covered()) before converting them; at() reads by key kind.
   C09.GAP    also: the full case analysis of _update_gaps, the interval surgery of _remove_gap, the sort +
              locally sound, progressing walk of _cleanup_gaps, and what _fill_gaps stores for which gap.
+Rule added after the fifth seeding round (the constructors had not been read at all):
+  C09.CONF   OrderedRingBuffer.__init__ (parameters bound by type: datetime = grid origin, timedelta = step, the
+             other one = storage) leaves origin / step / storage = its parameters, range = len(storage) * step,
+             sentinel bounds and no gaps on every completing path; every function outside the class on whose paths a
+             ring buffer is built (found by resolving the constructor call through the imports; the owner's __init__
+             when the call sits in it or in a private helper it executes; MovingWindow.__init__ must be one) passes
+             its own datetime parameter as the origin (own attributes written earlier on the path resolved), the
+             period of the samples it writes (config.resampling_period on a path that builds a Resampler(config),
+             a timedelta parameter otherwise) and a container of ceil(span / that same period) slots.
 The gap-list/data consistency over all histories is NOT decided (that the walk of _cleanup_gaps leaves a
 sorted, disjoint list is the inductive part; every single step is decided).
 """
@@ -52,7 +61,7 @@ from typing import Any
 
 from ..engine.normalize import ANCHOR_NAMES, inline_helpers, positional
 from ..engine.report import AnalysisError, Run
-from ..engine.resolver import FuncInfo, Program, walk_no_nested
+from ..engine.resolver import FuncInfo, Program, dotted, walk_no_nested
 from ..engine.sympath import Path
 from ..engine.terms import Poly, TermEval
 from ..engine.util import canon, method_call, u
@@ -2042,6 +2051,273 @@ def check_rounding(run: Run, prog: Program) -> None:
                   "in earlier slots and aligned query bounds move", **_where(nt, p))
 
 
+# --------------------------------------------------------------------------------------------- C09.CONF
+ORIGIN_F = "self._time_index_alignment"
+
+
+def _annotated(fn: FuncInfo, word: str) -> list[str]:
+    """Parameters (positional and keyword-only) whose annotation names `word` as a type."""
+    a = fn.node.args
+    out = []
+    for x in a.posonlyargs + a.args + a.kwonlyargs:
+        if x.annotation is not None and any(
+                (isinstance(n, ast.Name) and n.id == word) or (isinstance(n, ast.Attribute) and n.attr == word)
+                for n in ast.walk(x.annotation)):
+            out.append(x.arg)
+    return out
+
+
+def _attr_state(p: Path, upto: int | None = None) -> tuple[dict[str, ast.AST], dict[str, ast.AST]]:
+    """What the attributes of `self` hold before effect `upto` of the path (end of the path: None), every read
+    of an attribute written earlier on the path replaced by what was written; second result: the value each
+    `pre@<line>(self.X)` name (a local that read self.X before that line overwrote it) stands for."""
+    state: dict[str, ast.AST] = {}
+    replaced: dict[str, ast.AST] = {}
+    for pos, tgt, val, line in writes(p):
+        if upto is not None and pos >= upto:
+            break
+        if not (isinstance(tgt, ast.Attribute) and isinstance(tgt.value, ast.Name) and tgt.value.id == "self"):
+            continue
+        chain = u(tgt)
+        new = _resolved(val, state, replaced)
+        if chain in state:
+            replaced[pre_name(line, chain)] = state[chain]
+        state[chain] = new
+    return state, replaced
+
+
+def _resolved(e: ast.AST, state: dict[str, ast.AST], replaced: dict[str, ast.AST]) -> ast.AST:
+    import copy
+
+    class R(ast.NodeTransformer):
+        def visit_Attribute(self, n: ast.Attribute) -> ast.AST:  # noqa: N802
+            if isinstance(n.ctx, ast.Load) and u(n) in state:
+                return copy.deepcopy(state[u(n)])
+            return self.generic_visit(n)
+
+        def visit_Name(self, n: ast.Name) -> ast.AST:  # noqa: N802
+            return copy.deepcopy(replaced[n.id]) if n.id in replaced else n
+    return ast.fix_missing_locations(R().visit(copy.deepcopy(e)))
+
+
+def _ring_ctor_roles(prog: Program) -> tuple[FuncInfo, str, str, str]:
+    """(constructor of the ring buffer, storage parameter, period parameter, alignment parameter), the
+    parameters bound by their type: the datetime is the origin of the slot grid, the timedelta its step."""
+    init = prog.resolve_method(_ring(prog), "__init__")
+    if init is None:
+        raise AnalysisError("OrderedRingBuffer.__init__ not found")
+    origin, period = _annotated(init, "datetime"), _annotated(init, "timedelta")
+    rest = [x for x in func_params(init.node) if x not in origin + period]
+    if len(origin) != 1 or len(period) != 1 or len(rest) != 1:
+        raise AnalysisError(f"{init.qual}: cannot tell storage / sampling period / alignment point apart "
+                            f"({func_params(init.node)})")
+    return init, rest[0], period[0], origin[0]
+
+
+def _ceil_ratio(n: ast.AST) -> tuple[str, ast.AST, ast.AST] | None:
+    """N -> (rounding, A, B) for N = ceil(A / B) | floor(A / B) | int(A / B) | round(A / B) | A // B | -(-A // B),
+    A and B durations or both their `.total_seconds()`."""
+    def secs(x: ast.AST) -> ast.AST | None:
+        if isinstance(x, ast.Call) and isinstance(x.func, ast.Attribute) and x.func.attr == "total_seconds" \
+                and not x.args and not x.keywords:
+            return x.func.value
+        return None
+
+    def ratio(q: ast.AST, op: type) -> tuple[ast.AST, ast.AST] | None:
+        if not (isinstance(q, ast.BinOp) and isinstance(q.op, op)):
+            return None
+        a, b = secs(q.left), secs(q.right)
+        if a is not None and b is not None:
+            return a, b
+        return (q.left, q.right) if a is None and b is None else None
+
+    if isinstance(n, ast.Call) and len(n.args) == 1 and not n.keywords:
+        name = u(n.func).split(".")[-1]
+        if name == "int" and isinstance(n.args[0], ast.Call):
+            inner = _ceil_ratio(n.args[0])
+            if inner is not None:
+                return inner
+        kind = {"ceil": "ceil", "floor": "floor", "int": "floor", "round": "round", "trunc": "floor"}.get(name)
+        r = ratio(n.args[0], ast.Div)
+        if kind is not None and r is not None:
+            return kind, r[0], r[1]
+        return None
+    if isinstance(n, ast.UnaryOp) and isinstance(n.op, ast.USub) and isinstance(n.operand, ast.BinOp) \
+            and isinstance(n.operand.left, ast.UnaryOp) and isinstance(n.operand.left.op, ast.USub):
+        r = ratio(ast.BinOp(left=n.operand.left.operand, op=n.operand.op, right=n.operand.right), ast.FloorDiv)
+        return ("ceil", r[0], r[1]) if r is not None else None
+    r = ratio(n, ast.FloorDiv)
+    return ("floor", r[0], r[1]) if r is not None else None
+
+
+def _storage_len(e: ast.AST) -> ast.AST | None:
+    """Number of slots of a freshly built container: np.empty / zeros / ones / full(N, ...) (shape=N), [x] * N."""
+    if isinstance(e, ast.Call) and u(e.func).split(".")[-1] in ("empty", "zeros", "ones", "full"):
+        for k in e.keywords:
+            if k.arg == "shape":
+                return k.value
+        return e.args[0] if e.args else None
+    if isinstance(e, ast.BinOp) and isinstance(e.op, ast.Mult):
+        for lst, n in ((e.left, e.right), (e.right, e.left)):
+            if isinstance(lst, ast.List) and len(lst.elts) == 1:
+                return n
+    return None
+
+
+def check_conf_ring(run: Run, prog: Program) -> None:
+    """C09.CONF (the ring): a new OrderedRingBuffer is the empty map it was configured to be."""
+    init, storage, period, origin = _ring_ctor_roles(prog)
+    run.analysed(init.qual)
+    want = [
+        (ORIGIN_F, origin, "the origin of the slot grid is not the alignment point the buffer was built with: "
+         "normalize_timestamp / to_internal_index lay the slots out from another point, so updates and queries land "
+         "on another grid than the one asked for (the same for a constant, a default or another parameter)"),
+        (STEP, period, "the step of the slot grid is not the sampling period the buffer was built with"),
+        ("self._buffer", storage, "the storage is not the container the buffer was built with (capacity and container "
+         "type are the caller's)"),
+        (FULL, f"len({storage}) * {period}", "the time range of the window is not capacity * sampling period: "
+         "update() keeps another number of slots than the storage holds"),
+        (NEWEST_F, "self._TIMESTAMP_MIN", "a new buffer does not start with the `nothing written yet` newest bound: "
+         "the emptiness tests and max(newest, T) of the first update() read a slot that was never written"),
+        (OLDEST_F, "self._TIMESTAMP_MAX", "a new buffer does not start with the `nothing written yet` oldest bound: "
+         "the first update() is rejected as too old or the window claims unwritten slots"),
+    ]
+    n = 0
+    for p in ordered_paths(prog, init):
+        if p.exit == "raise":
+            continue
+        n += 1
+        state, _ = _attr_state(p)
+        where = _where(init, p)
+        for attr, value, msg in want:
+            got = state.get(attr)
+            run.check(got is not None and _same(got, value), "C09.CONF", init.qual,
+                      f"{attr} = {value} [{u(got)[:60] if got is not None else 'never set'}]", msg, **where)
+        gaps = state.get("self._gaps")
+        ok = (isinstance(gaps, ast.List) and not gaps.elts) or (
+            isinstance(gaps, ast.Call) and u(gaps.func) == "list" and not gaps.args and not gaps.keywords)
+        run.check(ok, "C09.CONF", init.qual, f"self._gaps = [] [{u(gaps)[:60] if gaps is not None else 'never set'}]",
+                  "a new buffer does not start with an empty gap list (nothing is written, nothing is missing inside "
+                  "the covered range yet)", **where)
+    if not n:
+        raise AnalysisError(f"{init.qual}: no completing path")
+
+
+def _builds(prog: Program, fn: FuncInfo, call: ast.Call, cls: Any, name: str | None = None) -> bool:
+    """`call` (inside `fn`) constructs that class (followed through the imports of the module), or a class of
+    the analysed package with that name."""
+    d = dotted(call.func)
+    if d is None or d.split(".")[0] in ("self", "cls"):
+        return False
+    tgt = prog.resolve_name(fn.module, d)
+    if tgt is None or isinstance(tgt, FuncInfo) or not hasattr(tgt, "methods"):
+        return False
+    return tgt is cls if cls is not None else getattr(tgt, "name", None) == name
+
+
+def _ring_builders(prog: Program) -> list[FuncInfo]:
+    """Functions outside the ring-buffer class on whose paths a ring buffer is built: the constructor of the
+    class when the construction sits in it or in one of its private helpers, else the function itself."""
+    ring = _ring(prog)
+    hosts: dict[str, FuncInfo] = {}
+    for fn in prog.all_functions():
+        if fn.cls is ring or (fn.outer is not None and fn.outer.cls is ring):
+            continue
+        if not any(isinstance(c, ast.Call) and _builds(prog, fn, c, ring) for c in ast.walk(fn.node)):
+            continue
+        host = fn
+        if fn.cls is not None and fn.name != "__init__" and fn.name.startswith("_"):
+            ctor = prog.resolve_method(fn.cls, "__init__")
+            if ctor is not None and ctor.cls is fn.cls:
+                host = ctor
+        hosts[host.qual] = host
+    return list(hosts.values())
+
+
+def check_conf_builders(run: Run, prog: Program) -> None:  # noqa: C901
+    """C09.CONF (who builds a ring): the buffer is laid out the way its owner was configured: alignment point,
+    sampling period of the samples that will be written, capacity = ceil(span / that period)."""
+    ring = _ring(prog)
+    _init, storage, period, origin = _ring_ctor_roles(prog)
+    ring_params = [storage, period, origin]
+    hosts = _ring_builders(prog)
+    if f"{MW}:MovingWindow.__init__" not in {h.qual for h in hosts}:
+        raise AnalysisError("C09.CONF: MovingWindow.__init__ does not build the ring buffer it reads")
+    for host in hosts:
+        run.analysed(host.qual)
+        dts, tds = _annotated(host, "datetime"), _annotated(host, "timedelta")
+        n = 0
+        for p in ordered_paths(prog, host):
+            if p.exit == "raise":
+                continue
+            where = _where(host, p)
+            built = [(i, e.node) for i, e in enumerate(p.effects) if e.kind == "call" and isinstance(e.node, ast.Call)
+                     and _builds(prog, host, e.node, ring)]
+            if host.name == "__init__" and len(built) != 1:
+                raise AnalysisError(f"{host.qual}: a completing path builds {len(built)} ring buffers")
+            resamplers = [u(e.node.args[0]) for e in p.effects  # type: ignore[attr-defined]
+                          if e.kind == "call" and isinstance(e.node, ast.Call) and len(e.node.args) == 1
+                          and not e.node.keywords and _builds(prog, host, e.node, None, "Resampler")]
+            for i, call in built:
+                n += 1
+                if any(isinstance(a, ast.Starred) for a in call.args) or any(k.arg is None for k in call.keywords):
+                    raise AnalysisError(f"{host.qual}: cannot bind the arguments of {u(call)[:80]}")
+                state, replaced = _attr_state(p, i)
+                args = {k: _resolved(v, state, replaced) for k, v in positional(call, ring_params).items()}
+                # --- the alignment point
+                got = args.get(origin)
+                if dts:
+                    ok = got is not None and u(got) in dts
+                    text = f"{origin}=<{' / '.join(dts)}> [{u(got)[:60] if got is not None else 'not passed: default'}]"
+                    run.check(ok, "C09.CONF", host.qual, text,
+                              f"the alignment point `{' / '.join(dts)}` this window is configured with does not reach the "
+                              f"ring buffer it builds (parameter `{origin}` of OrderedRingBuffer gets "
+                              f"{'`' + u(got)[:60] + '`' if got is not None else 'nothing, i.e. its own default'}): the slots "
+                              "are laid out from another origin, so for every alignment point off that grid updates and "
+                              "datetime queries are snapped to other slots (two samples in one slot, spurious gaps, wrong "
+                              "oldest/newest timestamps, at(grid point) out of range) — the same for an argument that is "
+                              "dropped, a constant, or another datetime", **where)
+                # --- the sampling period
+                per = args.get(period)
+                if per is None:
+                    raise AnalysisError(f"{host.qual}: no sampling period in {u(call)[:80]}")
+                if resamplers:
+                    ok = u(per) in {f"{c}.resampling_period" for c in resamplers}
+                    wanted = f"{resamplers[0]}.resampling_period"
+                else:
+                    ok = u(per) in tds or not tds
+                    wanted = "<the sampling period parameter>"
+                run.check(ok, "C09.CONF", host.qual, f"{period}={wanted} [{u(per)[:60]}]",
+                          "the slot grid of the ring buffer does not have the period of the samples that are written to "
+                          "it (the resampling period when the window resamples, the input sampling period otherwise): "
+                          "consecutive samples share a slot or leave slots unwritten", **where)
+                # --- the capacity
+                store = args.get(storage)
+                length = _storage_len(store) if store is not None else None
+                if length is None:
+                    if isinstance(store, ast.Name) and store.id in host.params:
+                        continue        # the caller's container
+                    raise AnalysisError(f"{host.qual}: cannot read the capacity of `{u(store)[:80] if store is not None else ''}`")
+                cr = _ceil_ratio(length)
+                if cr is None:
+                    if isinstance(length, ast.Name) and length.id in host.params:
+                        continue        # the caller's capacity
+                    raise AnalysisError(f"{host.qual}: cannot read the capacity `{u(length)[:80]}` as span / period")
+                kind, span, step = cr
+                ok = kind == "ceil" and _same(step, per) and (u(span) in tds or not tds) and u(span) != u(step)
+                run.check(ok, "C09.CONF", host.qual, f"capacity = ceil(<span> / {u(per)[:40]}) [{u(length)[:70]}]",
+                          "the ring buffer does not get ceil(window span / sampling period) slots of the period it is laid "
+                          "out with: the window keeps fewer slots than its span (rounded down, divided by another "
+                          "period) or evicts by another range than it stores", **where)
+        if not n:
+            raise AnalysisError(f"{host.qual}: no completing path builds the ring buffer")
+
+
+def check_conf(run: Run, prog: Program) -> None:
+    check_conf_ring(run, prog)
+    check_conf_builders(run, prog)
+
+
 _GUARD = (
     "        if (\n            timestamp < self._timestamp_oldest\n"
     "            and self._timestamp_oldest != self._TIMESTAMP_MAX\n        ):\n"
@@ -2176,6 +2452,25 @@ CONTROLS = [
     ("empty answer in the other container type", BUF,
      "            return np.array([]) if isinstance(self._buffer, np.ndarray) else []\n",
      "            return [] if isinstance(self._buffer, np.ndarray) else np.array([])\n", "C09.VALID"),
+    # ---- controls for C09.CONF (what a new buffer is, and what its owner hands it)
+    ("window's alignment point never reaches its ring buffer", MW,
+     "            sampling_period=self._sampling_period,\n            align_to=align_to,\n",
+     "            sampling_period=self._sampling_period,\n", "C09.CONF"),
+    ("window's ring buffer aligned to a constant", MW,
+     "            align_to=align_to,\n        )\n", "            align_to=UNIX_EPOCH,\n        )\n", "C09.CONF"),
+    ("resampling window laid out on the input period", MW,
+     "            sampling_period=self._sampling_period,\n", "            sampling_period=input_sampling_period,\n", "C09.CONF"),
+    ("capacity of the window rounded down", MW,
+     "        num_samples = math.ceil(\n", "        num_samples = math.floor(\n", "C09.CONF"),
+    ("ring buffer ignores the alignment point it is given", BUF,
+     "        self._time_index_alignment: datetime = align_to\n",
+     "        self._time_index_alignment: datetime = UNIX_EPOCH\n", "C09.CONF"),
+    ("time range of a new buffer is one slot", BUF,
+     "        self._full_time_range: timedelta = len(self._buffer) * self._sampling_period\n",
+     "        self._full_time_range: timedelta = self._sampling_period\n", "C09.CONF"),
+    ("new buffer claims a written slot", BUF,
+     "        self._timestamp_newest: datetime = self._TIMESTAMP_MIN\n",
+     "        self._timestamp_newest: datetime = self._TIMESTAMP_MAX\n", "C09.CONF"),
 ]
 
 
@@ -2186,7 +2481,7 @@ def _rules_for(expect: str) -> Any:
         check_valid_window(run, prog)   # the emptiness-guard operands are a C09.NORM obligation decided there
     return {"C09.NORM": norm, "C09.VALID": check_valid, "C09.GAP": check_gaps, "C09.IDX": check_idx,
             "C09.STORE": check_store, "C09.FETCH": check_fetch, "C09.COUNT": check_count,
-            "C09.NONE": check_none}[expect]
+            "C09.NONE": check_none, "C09.CONF": check_conf}[expect]
 
 
 def run_rules(run: Run, prog: Program) -> None:
@@ -2198,6 +2493,7 @@ def run_rules(run: Run, prog: Program) -> None:
     check_fetch(run, prog)
     check_count(run, prog)
     check_none(run, prog)
+    check_conf(run, prog)
 
 
 def check(run: Run, prog: Program, tier: str) -> str:
@@ -2219,7 +2515,12 @@ def check(run: Run, prog: Program, tier: str) -> str:
     run.rule("C09.COUNT", "has_value, time bounds, oldest/newest timestamp, get_timestamp, covered range and "
              "count_covered / count_valid report what the bounds and the gap list say")
     run.rule("C09.NONE", "a value established to be None on a path is not used afterwards on that path")
+    run.rule("C09.CONF", "a new ring buffer is the empty map it was configured to be (grid origin = alignment point, "
+             "step = sampling period, range = capacity * period, sentinel bounds, no gaps), and whoever builds one "
+             "(MovingWindow) hands it its own alignment point, the period of the samples it will write and "
+             "ceil(span / that period) slots")
     run_rules(run, prog)
+    run.floor("C09.CONF", 10)
     run.floor("C09.IDX", 3)
     run.floor("C09.STORE", 4)
     run.floor("C09.FETCH", 3)
